@@ -15,7 +15,9 @@ TRUSTED = B.TRUSTED
 ASSUMPTIONS = B.ASSUMPTIONS + ["phrases of at most 64 terms (curr_idx capacity)"]
 EXPLANATION = ("Theorems (Props/C15.v, closed): one entry per row; a match contains every term; exact matches and in-order "
                "windows (length + slop <= 18) match whenever the phrase-term positions of the document are pairwise "
-               "distinct modulo 64; false without that proviso (C15_exact_match_refuted = known finding D27). The model "
+               "distinct modulo 64 and the phrase has at most 19 terms (the property quantifies over 2..6); false without "
+               "the modulo-64 proviso (C15_exact_match_refuted = known finding D27), and false for exact phrases of 20+ "
+               "terms that touch three 18-position words (outside the property's quantifier; Span_Exact2.witE_*). The model "
                "(Span/Span.v) is a line-level transliteration incl. the 512-slot table, compaction, the give-up path and "
                "the min-popcount fallback; all clauses are also decided on generated inputs by the spec oracle "
                "(Span/Span_Spec.v) on both model and implementation.")
